@@ -191,6 +191,10 @@ func checkC03(w *Worker) {
 			book := absBook{}
 			for i, p := range universe {
 				r := absRecipe{Name: p, Ings: []absIng{{"fat", 1}}}
+				if i%2 == 1 {
+					// every second food is a recipe built on the previous one (taken once, listed first)
+					r.Ings = []absIng{{universe[i-1], 1}, {"fat", 1}}
+				}
 				if i != len(universe)-1 {
 					r.Ings = append(r.Ings, absIng{"X", c03Coef[i%len(c03Coef)]})
 				}
